@@ -99,11 +99,13 @@ func (s *S) Run(c *scen.Ctx) {
 	c.Describe("handle_timeout", handleTO.String())
 	readTO := []time.Duration{0, 0, 100 * time.Millisecond, time.Second}[simrt.Draw(4, "c12.readto")]
 	idleTO := []time.Duration{600 * time.Second, 600 * time.Second, 400 * time.Millisecond, 2 * time.Second}[simrt.Draw(4, "c12.idleto")]
+	writeTO := []time.Duration{0, 0, 300 * time.Millisecond, 3 * time.Second}[simrt.Draw(4, "c12.writeto")]
 	c.Describe("server_read_timeout", readTO.String())
 	c.Describe("server_idle_timeout", idleTO.String())
+	c.Describe("server_write_timeout", writeTO.String())
 	s.idleTO = idleTO
 	conf := &transport.TarsServerConf{Proto: "tcp", Address: addr, MaxInvoke: int32(s.pool), QueueCap: qcap,
-		AcceptTimeout: 500 * time.Millisecond, IdleTimeout: idleTO, ReadTimeout: readTO, HandleTimeout: handleTO}
+		AcceptTimeout: 500 * time.Millisecond, IdleTimeout: idleTO, ReadTimeout: readTO, WriteTimeout: writeTO, HandleTimeout: handleTO}
 	srv, _ := tars.VerifNewServer(&disp{s}, nil, true, conf)
 	if err := srv.Listen(); err != nil {
 		c.Inconclusive("listen: %v", err)
